@@ -1,11 +1,14 @@
-"""C18 -- check/parse/repair/mutate relations: bounded (nothing proved)."""
+"""C18 -- check/parse/repair/mutate relations.  Proved: how check/parse/repair compose the parser and the
+evaluator (exception flow, verdict relations) over assumed contracts of those two dependencies.
+Bounded: the relations end-to-end against independent oracles."""
 from vlib.harness import proved_tier
 from checks import bounded_C18
 
-LEVEL = "exploration"
+LEVEL = "other"
 
 
 def run(rep, tier, seed):
+    proved_tier(rep, "C18", seed, expected_min_obligations=20)
     bounded_C18.run(rep, tier, seed)
 
 
